@@ -2,6 +2,7 @@ package generator
 
 import (
 	"archive/zip"
+	"bytes"
 	_ "embed"
 	"encoding/json"
 	"flag"
@@ -99,14 +100,20 @@ func writeProducersToZip(path string, graph *graph.Instance, zw *zip.Writer) err
 		panic("can't write to nil zip writer")
 	}
 
-	for _, file := range graph.ProducerNames() {
+	// Evaluate everything before the first entry is written (see Generate)
+	names := graph.ProducerNames()
+	artifacts := make([]artifact.Artifact, len(names))
+	for i, file := range names {
+		artifacts[i] = graph.Artifact(file)
+	}
+
+	for i, file := range names {
 		filePath := path + file
 		f, err := zw.Create(filePath)
 		if err != nil {
 			return err
 		}
-		artifact := graph.Artifact(file)
-		err = artifact.Write(f)
+		err = artifacts[i].Write(f)
 		if err != nil {
 			return err
 		}
@@ -157,7 +164,16 @@ func parseFlags(set *flag.FlagSet, args []string) error {
 }
 
 func (a App) Generate(outputPath string) error {
-	for _, name := range a.graphInstance.ProducerNames() {
+	// Every artifact is evaluated before the first file is touched: a producer
+	// that can't be evaluated then doesn't leave the files of the producers
+	// before it and an empty file of its own behind.
+	names := a.graphInstance.ProducerNames()
+	artifacts := make([]artifact.Artifact, len(names))
+	for i, name := range names {
+		artifacts[i] = a.graphInstance.Artifact(name)
+	}
+
+	for i, name := range names {
 		fp := path.Join(outputPath, name)
 
 		// Producer names are paths which can contain subfolders, so be sure
@@ -175,8 +191,7 @@ func (a App) Generate(outputPath string) error {
 		defer f.Close()
 
 		// Write data to file
-		arifact := a.graphInstance.Artifact(name)
-		err = arifact.Write(f)
+		err = artifacts[i].Write(f)
 		if err != nil {
 			return err
 		}
@@ -392,12 +407,20 @@ func (a *App) Run(args []string) error {
 				var out io.Writer = appState.Out
 
 				if fileFlag != nil && *fileFlag != "" {
+					// The archive is put together first: if that fails there is no
+					// empty or cut-off file left under the name asked for.
+					archive := &bytes.Buffer{}
+					if err := a.WriteZip(archive); err != nil {
+						return err
+					}
+
 					f, err := os.Create(*fileFlag)
 					if err != nil {
 						return err
 					}
 					defer f.Close()
-					out = f
+					_, err = f.Write(archive.Bytes())
+					return err
 				}
 
 				return a.WriteZip(out)
